@@ -1,0 +1,192 @@
+//go:build verif
+
+package kgo
+
+import (
+	"sync"
+
+	"github.com/twmb/franz-go/pkg/kerr"
+)
+
+// This file exists only in builds with the `verif` tag. It lets an external
+// verification harness run the pure pieces of the share-group acknowledgement
+// path (per-record ack state CAS, ack range building, staleness filter) over
+// plain values. Nothing here changes client behavior.
+
+// VerifAckEntry is one pending user acknowledgement as a plain value. Entries
+// that carry the same ID share one per-record state (the same pointer
+// appended twice, e.g. renew then accept); Source is an opaque identity token
+// of the source the record was fetched from.
+type VerifAckEntry struct {
+	ID     int
+	Offset int64
+	Status int32
+	Source int
+	Epoch  int32
+}
+
+// VerifAckRange is a shareAckRange as a plain value.
+type VerifAckRange struct {
+	First, Last int64
+	Source      int
+	Epoch       int32
+	Type        int8
+}
+
+type verifShareEnv struct {
+	srcs   map[int]*source
+	back   map[*source]int
+	states map[int]*shareAckState
+	cursor *shareCursor
+}
+
+func newVerifShareEnv() *verifShareEnv {
+	return &verifShareEnv{
+		srcs:   map[int]*source{},
+		back:   map[*source]int{},
+		states: map[int]*shareAckState{},
+		cursor: &shareCursor{topic: "t", partition: 0},
+	}
+}
+
+func (v *verifShareEnv) src(i int) *source {
+	if s, ok := v.srcs[i]; ok {
+		return s
+	}
+	s := new(source)
+	v.srcs[i] = s
+	v.back[s] = i
+	return s
+}
+
+func (v *verifShareEnv) entries(es []VerifAckEntry) []*shareAckState {
+	out := make([]*shareAckState, 0, len(es))
+	for _, e := range es {
+		st, ok := v.states[e.ID]
+		if !ok {
+			st = &shareAckState{
+				deliveryCount: 1,
+				offset:        e.Offset,
+				slab:          &shareAckSlab{ackSource: v.src(e.Source), cursor: v.cursor, sessionEpoch: e.Epoch},
+			}
+			st.status.Store(e.Status)
+			v.states[e.ID] = st
+		}
+		out = append(out, st)
+	}
+	return out
+}
+
+func (v *verifShareEnv) ranges(rs []VerifAckRange) []shareAckRange {
+	out := make([]shareAckRange, 0, len(rs))
+	for _, r := range rs {
+		out = append(out, shareAckRange{firstOffset: r.First, lastOffset: r.Last, source: v.src(r.Source), sessionEpoch: r.Epoch, ackType: r.Type})
+	}
+	return out
+}
+
+func (v *verifShareEnv) plain(rs []shareAckRange) []VerifAckRange {
+	out := make([]VerifAckRange, 0, len(rs))
+	for _, r := range rs {
+		out = append(out, VerifAckRange{First: r.firstOffset, Last: r.lastOffset, Source: v.back[r.source], Epoch: r.sessionEpoch, Type: r.ackType})
+	}
+	return out
+}
+
+// VerifBuildAckRanges runs buildAckRanges.
+func VerifBuildAckRanges(entries []VerifAckEntry, gaps []VerifAckRange) (ranges []VerifAckRange, hasRenew bool) {
+	v := newVerifShareEnv()
+	rs, hr := buildAckRanges(v.entries(entries), v.ranges(gaps))
+	return v.plain(rs), hr
+}
+
+// VerifCoalesceAppendRange runs coalesceAppendRange.
+func VerifCoalesceAppendRange(out []VerifAckRange, r VerifAckRange) []VerifAckRange {
+	v := newVerifShareEnv()
+	o := v.ranges(out)
+	rr := v.ranges([]VerifAckRange{r})[0]
+	return v.plain(coalesceAppendRange(o, rr))
+}
+
+// VerifFilterStaleEntries runs filterStaleEntries for a source identified by
+// the token self over one drain per element of entries/gaps (same length).
+// It returns the filtered drains, the two counters and the per-drain drop
+// error ("" none, "epoch" InvalidShareSessionEpoch, "state" InvalidRecordState,
+// otherwise the error text).
+func VerifFilterStaleEntries(self int, epoch int32, entries [][]VerifAckEntry, gaps [][]VerifAckRange) (kept [][]VerifAckEntry, keptGaps [][]VerifAckRange, nUser, nStale int64, errs []string) {
+	v := newVerifShareEnv()
+	back := map[*shareAckState]VerifAckEntry{}
+	drains := make([]cursorAckDrain, len(entries))
+	for i := range entries {
+		sts := v.entries(entries[i])
+		for j, st := range sts {
+			back[st] = entries[i][j]
+		}
+		drains[i] = cursorAckDrain{cursor: &shareCursor{topic: "t", partition: int32(i)}, entries: sts, gaps: v.ranges(gaps[i])}
+	}
+	nUser, nStale, results := filterStaleEntries(v.src(self), epoch, drains)
+	errs = make([]string, len(drains))
+	for _, r := range results {
+		switch r.Err {
+		case kerr.InvalidShareSessionEpoch:
+			errs[r.Partition] += "epoch"
+		case kerr.InvalidRecordState:
+			errs[r.Partition] += "state"
+		default:
+			errs[r.Partition] += r.Err.Error()
+		}
+	}
+	for _, d := range drains {
+		ks := make([]VerifAckEntry, 0, len(d.entries))
+		for _, st := range d.entries {
+			ks = append(ks, back[st])
+		}
+		kept = append(kept, ks)
+		keptGaps = append(keptGaps, v.plain(d.gaps))
+	}
+	return kept, keptGaps, nUser, nStale, errs
+}
+
+// VerifTryAckOp is one call on a per-record ack state: tryAck(Status, Strict),
+// or, with Reset set, the renew reset `status.CompareAndSwap(AckRenew, 0)`
+// that shareAck performs after a renew was answered.
+type VerifTryAckOp struct {
+	Status int8
+	Strict bool
+	Reset  bool
+}
+
+func verifTryAckOne(st *shareAckState, op VerifTryAckOp) bool {
+	if op.Reset {
+		return st.status.CompareAndSwap(int32(AckRenew), 0)
+	}
+	return st.tryAck(AckStatus(op.Status), op.Strict)
+}
+
+// VerifTryAck applies ops to one fresh shareAckState whose status starts at
+// init; sequentially in order, or (concurrent) from one goroutine per op
+// released together. It returns each call's result and the final status.
+func VerifTryAck(init int32, ops []VerifTryAckOp, concurrent bool) (results []bool, final int32) {
+	st := new(shareAckState)
+	st.status.Store(init)
+	results = make([]bool, len(ops))
+	if !concurrent {
+		for i, op := range ops {
+			results[i] = verifTryAckOne(st, op)
+		}
+		return results, st.status.Load()
+	}
+	var wg sync.WaitGroup
+	start := make(chan struct{})
+	for i, op := range ops {
+		wg.Add(1)
+		go func() {
+			defer wg.Done()
+			<-start
+			results[i] = verifTryAckOne(st, op)
+		}()
+	}
+	close(start)
+	wg.Wait()
+	return results, st.status.Load()
+}
